@@ -30,6 +30,7 @@ import ast
 import copy
 
 from . import roles
+from .model import clone
 
 FUNC = (ast.FunctionDef, ast.AsyncFunctionDef)
 MAX_ROUNDS = 3
@@ -119,7 +120,7 @@ class _Subst(ast.NodeTransformer):
 
   def visit_Name(self, node):
     if node.id in self.mapping and isinstance(node.ctx, ast.Load):
-      return copy.deepcopy(self.mapping[node.id])
+      return clone(self.mapping[node.id])
     if node.id in self.renames:
       node.id = self.renames[node.id]
     return node
@@ -224,13 +225,13 @@ class Inliner(object):
         if isinstance(v, ast.Name) and v.id == pn:
           continue
         renames[p] = pn
-        asg = ast.Assign(targets=[ast.Name(id=pn, ctx=ast.Store())], value=copy.deepcopy(v))
+        asg = ast.Assign(targets=[ast.Name(id=pn, ctx=ast.Store())], value=clone(v))
         ast.copy_location(asg, call)
         ast.fix_missing_locations(asg)
         pre.append(asg)
       else:
         mapping[p] = v
-    body = [copy.deepcopy(st) for st in helper.body]
+    body = [clone(st) for st in helper.body]
     if body and isinstance(body[0], ast.Expr) and isinstance(body[0].value, ast.Constant) and \
         isinstance(body[0].value.value, str):
       body = body[1:]          # docstring
